@@ -3,6 +3,7 @@ Correspondence: Model.Permute.permute (mk_mapper w ic cmtn) ~ fgutils.permutatio
 Model.MapMatrix.{mm_init,is_mapping} ~ fgutils.permutation.MappingMatrix.{__init__,is_mapping}.
 Result lists are compared exactly, including their order."""
 import contextlib
+import zlib
 import copy
 import io
 import itertools
@@ -34,7 +35,7 @@ CORRESPONDENCE = ("Model.Permute.permute (mk_mapper wildcard ignore_case can_map
                   "fgutils.algorithm.subgraph.map_subgraph2 (stdout suppressed), where ord = the row numbering of the private dict "
                   "__s2i (enumeration of a Python set, PYTHONHASHSEED dependent) READ FROM THE IMPLEMENTATION for each case: with it the "
                   "reported pair / the result list incl. order and the exception class are compared exactly; integers for numpy float64")
-RULE = ("batch cases: one pattern list x ALL structure lists of length 0..n over the alphabet {C,c,H,R,O}; mapper settings = "
+RULE = ("one case in three with an empty can_map_to_nothing list uses a mapper that was built with another wildcard / ignore_case setting, used once and then re-configured through its public attributes; batch cases: one pattern list x ALL structure lists of length 0..n over the alphabet {C,c,H,R,O}; mapper settings = "
         "wildcard in {None,'R'} x ignore_case x can_map_to_nothing in {[],[H],[R],[H,R],[R,H],'H' (bare string),[H,H],"
         "[C,c],[H,O],[R,H,R]} (40 settings). quick: every pattern of length 0..3 x n=3 for 16 settings ([],[H],[H,R],[R,H]) and "
         "length 0..2 x n=3 for the other 24; thorough: length 0..3 x n=3 for all 40, length 0..4 x n=4 for 6 settings, and "
@@ -320,6 +321,15 @@ def corpus_ext():
 
 
 def mk(c):
+    """The mapper for the case. One case in three with an empty can_map_to_nothing list (whose order the constructor
+    fixes from the wildcard) gets a mapper that was built with ANOTHER wildcard / ignore_case setting, used once, and then
+    re-configured through its public attributes: permute reads wildcard and ignore_case at call time."""
+    if not c["_cm"] and zlib.crc32(repr((c["kind"], c["w"], c["ic"], c.get("p"), c.get("s"), c.get("psyms"), c.get("ssyms"))).encode()) % 3 == 0:
+        m = PermutationMapper(wildcard=None if c["w"] else "R", ignore_case=not c["ic"], can_map_to_nothing=c["_cm"])
+        m.permute(["R", "c"], ["C", "r", "O"])
+        m.wildcard = c["w"]
+        m.ignore_case = c["ic"]
+        return m
     return PermutationMapper(wildcard=c["w"], ignore_case=c["ic"], can_map_to_nothing=c["_cm"])
 
 
